@@ -185,6 +185,54 @@ def avail_guard(F, f, target_bb, value_expr):
     return False
 
 
+def threshold_guards(g):
+    """[(N, switch_bb, good_target)] for comparisons of a value with a constant: on the edge to good_target
+    the value is known to be >= N (handles `v >= N`, `v < N`, `v > N-1`, `v <= N-1`, either orientation, `!`)"""
+    out = []
+    for sb in g.switches():
+        e, ts, o = g.cond(sb)
+        neg = False
+        while e[0] == 'unop' and e[1] == 'Not':
+            neg = not neg
+            e = e[2]
+        if e[0] != 'binop' or e[1] not in ('Ge', 'Lt', 'Gt', 'Le'):
+            continue
+        be = g.bool_edges(sb)
+        if not be:
+            continue
+        tt, ff = be
+        if neg:
+            tt, ff = ff, tt
+        op, a, b = e[1], e[2], e[3]
+        if C07.fold(b) is None and C07.fold(a) is not None:
+            a, b = b, a
+            op = {'Ge': 'Le', 'Le': 'Ge', 'Lt': 'Gt', 'Gt': 'Lt'}[op]
+        n = C07.fold(b)
+        if n is None:
+            continue
+        if op == 'Ge':
+            out.append((n, sb, tt))
+        elif op == 'Lt':
+            out.append((n, sb, ff))
+        elif op == 'Gt':
+            out.append((n + 1, sb, tt))
+        elif op == 'Le':
+            out.append((n + 1, sb, ff))
+    return out
+
+
+def getter_minimum(g):
+    """largest N such that every Ok return of g lies behind a `bytes >= N` edge; (N, sb, good) or None"""
+    oks = [bi for bi, si, e in mirq.agg_sites(g, r'^std::result::Result$', 'Ok')]
+    best = None
+    for n, sb, good in threshold_guards(g):
+        via = g.only_via_edge((sb, good)) | {good}
+        if oks and all(b in via for b in oks):
+            if best is None or n > best[0]:
+                best = (n, sb, good)
+    return best
+
+
 @TABLE.rule('3', 'K4+K7', 'every cursor position (hence every buffer advance) is bounded by the bytes available', floor=12)
 def r3(cx, rec):
     F = cx.F
@@ -194,11 +242,10 @@ def r3(cx, rec):
     getters = {}
     for bb, tgt in C.local_calls(F, P):
         g = F.fn(tgt)
-        # minimum bytes a getter establishes: Ge(end - start, N) guarding its Ok
-        for sb in g.switches():
-            e, ts, o = g.cond(sb)
-            if e[0] == 'binop' and e[1] == 'Ge' and C07.fold(e[3]) is not None:
-                getters[bb] = C07.fold(e[3])
+        # minimum bytes a getter establishes: every Ok return lies behind `end - start >= N`
+        gm = getter_minimum(g)
+        if gm:
+            getters[bb] = gm[0]
     for sp in sps:
         e = P.expr_call(sp)
         arg = e[2][1]
@@ -447,7 +494,7 @@ def r6(cx, rec):
     osw = [s for s in D.switches() if D.cond(s)[0][0] == 'discr' and 'Option<frame::Frame>' in D.cond(s)[0][2]]
     if not osw:
         raise AnchorMissing('peer loop does not test for the end of the stream')
-    ve = D.variant_edges(osw[0])
+    ve = D.variant_edges(osw[0], fill=True)
     r = D.reach_from(ve['None'], cut_blocks=[osw[0]])
     rec.site(D, ve['None'], 'None (clean EOF) arm')
     rec.need(bool(r & set(C.err_exit_blocks(D))) or any((D.blocks[b]['t'].get('callee') or '').endswith('Into::into') for b in r if D.blocks[b]['t']['k'] == 'call'),
@@ -534,33 +581,40 @@ def r7b(cx, rec):
             continue
         gn = None
         gsb = None
-        for sb in g.switches():
-            e, ts, o = g.cond(sb)
-            if e[0] == 'binop' and e[1] == 'Ge' and C07.fold(e[3]) is not None:
-                gn, gsb = C07.fold(e[3]), sb
+        tt = None
+        gm = getter_minimum(g)
+        if gm:
+            gn, gsb, tt = gm
+        extent = []
         for kind, pb, ops in mirq.panic_sites(g):
             if kind == 'bounds':
                 idx = C07.fold(ops[1])
-                tt, ff = g.bool_edges(gsb) if gsb is not None else (None, None)
+                extent.append(idx + 1 if idx is not None else None)
                 ok = gn is not None and idx is not None and idx < gn and pb in g.only_via_edge((gsb, tt))
                 rec.site(g, pb, 'index %s under guard >= %s' % (idx, gn))
                 rec.need(ok, 'getter-index/' + tgt.split('::')[-1], g, pb, 'getter indexes byte %s without a dominating guard of at least %s bytes' % (idx, (idx or 0) + 1))
             if kind == 'index' and len(ops) > 1 and ops[1][0] == 'agg':
                 rng = dict(ops[1][4])
                 end = C07.fold(rng.get('end', ('const', None, None, '')))
-                tt, ff = g.bool_edges(gsb) if gsb is not None else (None, None)
+                extent.append(end)
                 ok = gn is not None and end is not None and end <= gn and pb in g.only_via_edge((gsb, tt))
                 rec.site(g, pb, 'range ..%s under guard >= %s' % (end, gn))
                 rec.need(ok, 'getter-range/' + tgt.split('::')[-1], g, pb, 'getter slices ..%s without a dominating guard' % end)
+        if extent and gn is not None and None not in extent:
+            # tight: a getter that demands more bytes than it reads makes a complete message wait for bytes of the next one
+            rec.need(gn == max(extent), 'getter-threshold/' + tgt.split('::')[-1], g, gsb,
+                     'getter requires %d buffered bytes but reads only the first %d: a complete message that ends there is not '
+                     'delivered until further bytes arrive' % (gn, max(extent)))
     # Handshake::check: loop indices bounded by the guard
     hs = C07.impl_method(F, dict(C07.messages(F))['Handshake'], 'check')
     inc = [bi for bi, si, e in mirq.agg_sites(hs, r'^error::Error$', 'Incomplete')]
     g = False
-    for sb in hs.switches():
-        e, ts, o = hs.cond(sb)
-        if e[0] == 'binop' and e[1] == 'Lt' and 'available' in (access_path(e[2]) or '') and C07.fold(e[3]) == 68:
-            tt, ff = hs.bool_edges(sb)
+    for n, sb, good in threshold_guards(hs):
+        e = hs.cond(sb)[0]
+        while e[0] == 'unop':
+            e = e[2]
+        if n >= 68 and any('available' in (access_path(x) or '') for x in (e[2], e[3])):
             bounds = [pb for kind, pb, ops in mirq.panic_sites(hs) if kind == 'bounds']
-            g = all(pb in hs.only_via_edge((sb, ff)) for pb in bounds) and bool(bounds)
+            g = all(pb in hs.only_via_edge((sb, good)) or pb == good for pb in bounds) and bool(bounds)
             rec.site(hs, sb, 'handshake byte comparisons only after available >= 68: %s' % g)
     rec.need(g, 'handshake-compare-unguarded', hs, None, 'Handshake::check indexes the buffer without first requiring 68 available bytes')
